@@ -22,6 +22,15 @@ depth 25, capacity 8.
                         the result is their number.
 * `reset`             : erases every frame except the one due now (that one is cleared by `execute`).
 
+* callbacks that schedule "on the fly" (tdma_sched.c: "some call back may schedule new call backs
+  'on the fly'"; "if the cb() we just called has scheduled more items for the current TDMA [...] we
+  will simply continue to execute them as intended. Priorities won't work though"): `ExecOnTheFly`.
+  The calls a callback makes while the frame is executed act like the same calls made from outside
+  at that moment (the frame being executed still holds all its items, run or not, so its capacity
+  counts them); what they add to the frame due now runs in the same `execute`, after the items that
+  were due when it started, in the order it was added (no priorities); nothing is lost when the
+  frame is emptied at the end.
+
 An offset `≥ depth` is outside the property ("N below the scheduler depth"); the ring makes it alias
 `off % depth`, which is what `slot` says.
 -/
@@ -97,6 +106,7 @@ inductive Op (κ : Type) where
   | advance
   | execute
   | reset
+  deriving DecidableEq
 
 /-- result of one operation: return value (`0` for advance/reset) and the items to run -/
 structure Out (κ : Type) where
@@ -116,6 +126,27 @@ def run : Due κ → List (Op κ) → Due κ × List (Out κ)
     let r := step due op
     let r' := run r.1 ops
     (r'.1, r.2 :: r'.2)
+
+/-- a scheduler call a callback may make from inside: `schedule` / `scheduleSet` -/
+def isCall : Op κ → Bool
+  | .schedule _ _ => true
+  | .scheduleSet _ _ => true
+  | _ => false
+
+/-- `execute` with callbacks that schedule on the fly.  `scr x` = the calls the callback of item `x`
+makes when it runs.  `ran` (the callbacks in invocation order), the new state `due'` and the return
+values `rets` of all the calls made from inside (in order) are an admissible outcome iff
+* `ran = pre ++ fly`, where `pre` is a valid run of the items due when `execute` started (each once,
+  ascending priorities) and `fly` is what the calls added to the frame due now, in the order added;
+* the state is what the calls of the callbacks that ran, in order, make of `due` — exactly as if
+  made from outside, with the frame due now still holding its items — and then the frame due now is
+  emptied. -/
+def ExecOnTheFly (scr : AItem κ → List (Op κ)) (due : Due κ) (ran : List (AItem κ)) (due' : Due κ)
+    (rets : List Int) : Prop :=
+  ∃ pre fly, ran = pre ++ fly ∧ ValidRun (due 0) pre ∧
+    fly = ((run due (ran.flatMap scr)).1 0).drop (due 0).length ∧
+    due' = (execute (run due (ran.flatMap scr)).1).1 ∧
+    rets = (run due (ran.flatMap scr)).2.map (·.rc)
 
 /-- the items an operation tries to place -/
 def placed : Op κ → List (AItem κ)
